@@ -904,3 +904,75 @@ def rf85(run):
     if n < 6:
         raise F.AnalysisBroken('MIR_scan_string: only %d data item creators found' % n)
     return n
+
+
+# ---------------------------------------------------------------------------------------------
+# RF96: a reader helper shared by prototypes and functions rejects only what both kinds reject
+# ---------------------------------------------------------------------------------------------
+
+def rf96(run):
+    import re
+    rule = 'RF96'
+    run.rule(rule, 'binary reader: func_proto_read parses the header of prototypes *and* functions.  An error it raises is either about the '
+                   'encoding (its guard tests the token tag) or states a rule that the API constructors of both kinds enforce '
+                   '(new_proto_arr / create_proto and new_func_arr); a rule of one kind only (e.g. "a vararg function needs a fixed '
+                   'argument") applied in the shared helper rejects headers the writer legitimately produces for the other kind')
+    tu = run.tu('mir')
+    f = tu.func('func_proto_read')
+    run.functions_analysed.add(('mir', f.name))
+    from rf_proto import dominating_conditions
+    cfg = f.cfg
+    callers = {g.name for g in tu.func_list for y in g.walk() if y['k'] == 'CallExpr' and y.get('callee') == 'func_proto_read'}
+    if not callers:
+        raise F.AnalysisBroken('func_proto_read has no caller')
+
+    def api_guards(names):
+        out = []
+        for nm in names:
+            if nm not in tu.funcs:
+                continue
+            g = tu.funcs[nm]
+            for y in g.walk():
+                if y['k'] == 'IfStmt' and any(AI_is_err(z) for z in F.walk(y['c'][1]) if z['k'] == 'CallExpr'):
+                    out.append(set(re.findall(r'[A-Za-z_]\w*', F.src(y['c'][0]))))
+        return out
+    from lib import absint as AI
+    AI_is_err = AI.is_error_call
+    proto_g = api_guards(['new_proto_arr', 'create_proto', 'MIR_new_proto_arr'])
+    func_g = api_guards(['new_func_arr'])
+    n = 0
+    for x in f.walk():
+        if x['k'] != 'CallExpr' or AI.is_error_call(x) is None:
+            continue
+        conds = [c for c, t in dominating_conditions(cfg, cfg.block_of(x), selective=True)]
+        # the innermost if
+        guard = None
+        cur = x['i']
+        while cur is not None:
+            p_ = f.parent.get(cur)
+            if p_ is None:
+                break
+            if f.nodes[p_]['k'] == 'IfStmt':
+                guard = f.nodes[p_]
+                break
+            cur = p_
+        gtxt = F.src(guard['c'][0]) if guard is not None else ''
+        ids = set(re.findall(r'[A-Za-z_]\w*', gtxt))
+        encoding = 'tag' in ids or any(i_.startswith('TAG_') for i_ in ids)
+        n += 1
+        ok = encoding
+        why = 'tests the token tag' if encoding else None
+        if not ok:
+            key = {i_ for i_ in ids if i_ not in ('VARR_MIR_var_tlength', 'proto_vars', 'ctx', 'NULL')}
+            in_proto = any(len(key & g_) >= 1 and ('vararg_p' in g_) == ('vararg_p' in key) for g_ in proto_g)
+            in_func = any(len(key & g_) >= 1 and ('vararg_p' in g_) == ('vararg_p' in key) for g_ in func_g)
+            ok = in_proto and in_func
+            why = 'enforced by both constructors' if ok else None
+        run.ob(rule, (x['l'],), ok, {'site': '%s:%d' % (f.relfile(), x['l']), 'guard': gtxt[:90], 'why accepted': why})
+        if not ok:
+            run.violation(rule, f, 'kind-specific rule in the shared header reader', 'func_proto_read (shared by %s) raises an error under `%s`, which '
+                          'is neither a test of the encoding nor a rule that the prototype constructor enforces: a prototype the API accepts '
+                          'and MIR_write emits (e.g. `p: proto i32, ...`) is rejected by MIR_read' % (', '.join(sorted(callers)), gtxt[:80]), line=x['l'])
+    if n < 2:
+        raise F.AnalysisBroken('func_proto_read: only %d error exits found' % n)
+    return n
